@@ -1,10 +1,9 @@
 (* C02 - witnesses (schedules checked by vm_compute):
-     * the two pre-repair variants of the model violate what ParkThm.v proves for the code as it is
-       ([step false true]: F8, the time-out is lost; [step true false]: F12, Park::drop waits for ever);
-     * what is NOT true of the code as it is ([step true true]): a cancel can be lost when the kernel half
-       of an EARLIER Blocker of the same coroutine is still in flight and registers its own (stale) slot
-       with the Cancel after the current park registered (the premise [tainted = false] of
-       no_lost_cancel_partial is necessary);
+     * the three pre-repair variants of the model violate what ParkThm.v proves for the code as it is
+       ([step false true true]: F8, the time-out is lost; [step true false true]: F12, Park::drop waits for
+       ever; [step true true false]: F31, a cancel is lost when the kernel half of an EARLIER Blocker of the
+       same coroutine, still in flight, registers its own (stale) slot with the Cancel after the current park
+       registered);
      * non-vacuity: reachable states that satisfy the hypotheses of the theorems of ParkThm.v, and both
        spurious wake-ups of the shared per-coroutine Park (the reason for (v)). *)
 From Coq Require Import List ZArith Bool Arith Lia.
@@ -31,14 +30,14 @@ Definition f8_sched : list action :=
   [APark (Some ms1)] ++ u_to_yield ++
   [AK; AK; AK;                  (* timeout.take, now(), add_timer *)
    ATick (2 * ms1); ATFire 0%nat; ATTake 0%nat;    (* the stall: the timer pops the entry, finds the slot empty *)
-   AK; AK; AK;                  (* set_timeout_handle, guard on, wait_co.store *)
-   AK; AK; AK; AK].             (* state.load, set_co, is_canceled, guard off *)
+   AK; AK; AK; AK;              (* set_timeout_handle, guard on, set_co, wait_co.store *)
+   AK; AK; AK].                 (* state.load, is_canceled, guard off *)
 
 Theorem lost_timeout_without_fixF8 :
-  exists s, Reach false true s /\ Quiescent s /\ slot s = true /\ armed_of (ud s) <> None /\
+  exists s, Reach false true true s /\ Quiescent s /\ slot s = true /\ armed_of (ud s) <> None /\
             exists i, hnd s = Some i /\ tm s i = TmDone /\ tdl s i < now s.
 Proof.
-  destruct (run false true init f8_sched) as [s|] eqn:E; [|vm_compute in E; discriminate E].
+  destruct (run false true true init f8_sched) as [s|] eqn:E; [|vm_compute in E; discriminate E].
   exists s. split; [eapply run_reach_gen; [apply R0 | exact E]|].
   vm_compute in E. injection E as E. subst s.
   split; [|split; [reflexivity|split; [cbn; discriminate|exists 0%nat; cbn; repeat split; reflexivity]]].
@@ -48,7 +47,7 @@ Qed.
 
 (* hence the statement proved for the repaired code (ParkThm.quiescent_no_deadline) fails for the variant *)
 Corollary quiescent_no_deadline_refuted_without_fixF8 :
-  ~ (forall s, Reach false true s -> Quiescent s -> slot s = true -> armed_of (ud s) <> None ->
+  ~ (forall s, Reach false true true s -> Quiescent s -> slot s = true -> armed_of (ud s) <> None ->
                exists i, hnd s = Some i /\ tm s i = TmArmed /\ now s < tdl s i).
 Proof.
   intros H. destruct lost_timeout_without_fixF8 as (s & R & Q & S & A & i & Hh & Ht & _).
@@ -64,7 +63,7 @@ Qed.
    Park inside that nested resume: Park::drop spins on wait_kernel, which only the frame below can clear *)
 Definition f12_sched : list action :=
   [APark None] ++ u_to_yield ++
-  [AK; AK; AK; AK;              (* timeout.take, set_timeout_handle, guard on, wait_co.store *)
+  [AK; AK; AK; AK; AK;          (* timeout.take, set_timeout_handle, guard on, set_co, wait_co.store *)
    AUnSwap 0%nat;               (* unpark: state.swap(true) *)
    AK; AK; AK; AK;              (* deadline check, state.load = true, wait_co.take, run_coroutine (nested) *)
    AUnTake 0%nat] ++            (* the unparker finds the slot empty *)
@@ -72,23 +71,23 @@ Definition f12_sched : list action :=
   [AExit true].                 (* the coroutine finishes; Park::drop runs here *)
 
 Theorem drop_blocked_without_fixF12 :
-  exists s, Reach true false s /\ dropping s = true /\ wk s = true /\
-            step true false s AK = None /\ step true false s ADrop = Some s /\ up s = UDead.
+  exists s, Reach true false true s /\ dropping s = true /\ wk s = true /\
+            step true false true s AK = None /\ step true false true s ADrop = Some s /\ up s = UDead.
 Proof.
-  destruct (run true false init f12_sched) as [s|] eqn:E; [|vm_compute in E; discriminate E].
+  destruct (run true false true init f12_sched) as [s|] eqn:E; [|vm_compute in E; discriminate E].
   exists s. split; [eapply run_reach_gen; [apply R0 | exact E]|].
   vm_compute in E. injection E as E. subst s. cbn. repeat split; reflexivity.
 Qed.
 
 Corollary drop_never_blocked_refuted_without_fixF12 :
-  ~ (forall s, Reach true false s -> dropping s = true -> wk s = true -> exists s', step true false s AK = Some s').
+  ~ (forall s, Reach true false true s -> dropping s = true -> wk s = true -> exists s', step true false true s AK = Some s').
 Proof.
   intros H. destruct drop_blocked_without_fixF12 as (s & R & D & W & K & _).
   destruct (H s R D W) as (s' & X). congruence.
 Qed.
 
 (* ------------------------------------------------------------------------------------------------ *)
-(* the code as it is: a cancel is lost after a stale set_co                                          *)
+(* F31: with the registration after the publication a cancel is lost after a stale set_co            *)
 (* ------------------------------------------------------------------------------------------------ *)
 
 (* The coroutine parks on Blocker A; the worker running A's subscribe is stalled just before
@@ -106,21 +105,21 @@ Definition stale_setco_sched : list action :=
    AStaleSetco;                 (* A's worker: cancel.set_co(A.wait_co) *)
    ACnOr 0%nat; ACnTakeCo 0%nat; ACnTake 0%nat].
 
-Theorem cancel_lost_after_stale_set_co :
-  exists s, ReachF s /\ Quiescent s /\ slot s = true /\ cbit s = true /\ tainted s = true /\ ccheck s = true.
+Theorem cancel_lost_after_stale_set_co_without_fixF31 :
+  exists s, Reach true true false s /\ Quiescent s /\ slot s = true /\ cbit s = true /\ tainted s = true /\ ccheck s = true.
 Proof.
-  destruct (run true true init stale_setco_sched) as [s|] eqn:E; [|vm_compute in E; discriminate E].
+  destruct (run true true false init stale_setco_sched) as [s|] eqn:E; [|vm_compute in E; discriminate E].
   exists s. split; [eapply run_reach_gen; [apply R0 | exact E]|].
   vm_compute in E. injection E as E. subst s.
   split; [|cbn; repeat split; reflexivity].
   unfold Quiescent, timers_quiet; cbn. repeat split; intros; try reflexivity; try (destruct i; reflexivity).
 Qed.
 
-(* the unrestricted form of ParkThm.quiescent_no_cancel_partial is false for the code as it is *)
-Corollary quiescent_no_cancel_refuted :
-  ~ (forall s, ReachF s -> Quiescent s -> ~ (slot s = true /\ cbit s = true)).
+(* hence the statement proved for the repaired code (ParkThm.quiescent_no_cancel) fails for the variant *)
+Corollary quiescent_no_cancel_refuted_without_fixF31 :
+  ~ (forall s, Reach true true false s -> Quiescent s -> ~ (slot s = true /\ cbit s = true)).
 Proof.
-  intros H. destruct cancel_lost_after_stale_set_co as (s & R & Q & S & C & _). exact (H s R Q (conj S C)).
+  intros H. destruct cancel_lost_after_stale_set_co_without_fixF31 as (s & R & Q & S & C & _). exact (H s R Q (conj S C)).
 Qed.
 
 (* ------------------------------------------------------------------------------------------------ *)
@@ -129,14 +128,14 @@ Qed.
 
 Ltac run_witness sched :=
   let s := fresh "s" in let E := fresh "E" in
-  destruct (run true true init sched) as [s|] eqn:E; [|vm_compute in E; discriminate E];
+  destruct (run true true true init sched) as [s|] eqn:E; [|vm_compute in E; discriminate E];
   exists s; split; [eapply run_reach_gen; [apply R0 | exact E]|];
   vm_compute in E; injection E as E; subst s.
 
 (* the kernel half of a park without timeout, from timeout.take to the release of the guard *)
 Definition k_untimed : list action := [AK; AK; AK; AK; AK; AK; AK; AK; AK].
-(* ... of a timed park: timeout.take, now(), add_timer, handle, guard on, store, deadline check, state.load,
-   set_co, is_canceled, guard off *)
+(* ... of a timed park: timeout.take, now(), add_timer, handle, guard on, set_co, store, deadline check,
+   state.load, is_canceled, guard off *)
 Definition k_timed : list action := [AK; AK; AK; AK; AK; AK; AK; AK; AK; AK; AK].
 
 (* the coroutine rests in the slot, the token is set, an unparker is between swap and take *)
@@ -149,7 +148,7 @@ Proof. run_witness ([APark None] ++ u_to_yield ++ k_untimed ++ [AUnSwap 0%nat]).
 Example ex_token_kernel :
   exists s, ReachF s /\ slot s = true /\ pstate s = true /\ kp s = KSload /\ forall i, un s i = NIdle.
 Proof.
-  run_witness ([APark None] ++ u_to_yield ++ [AK; AK; AK; AUnSwap 0%nat; AUnTake 0%nat; AK; AK]).
+  run_witness ([APark None] ++ u_to_yield ++ [AK; AK; AK; AK; AUnSwap 0%nat; AUnTake 0%nat; AK; AK]).
   cbn. repeat split; try reflexivity. intros i; destruct i; reflexivity.
 Qed.
 
@@ -182,9 +181,19 @@ Qed.
 
 (* the cancel bit is set, the coroutine is in the slot and registered, a canceller is on its way *)
 Example ex_cancel_pending :
-  exists s, ReachF s /\ slot s = true /\ cbit s = true /\ tainted s = false /\ kp s = KIdle /\
+  exists s, ReachF s /\ slot s = true /\ cbit s = true /\ kp s = KIdle /\
             cco s = CThis /\ cn s 0%nat = CTakeCo.
 Proof. run_witness ([APark None] ++ u_to_yield ++ k_untimed ++ [ACnOr 0%nat]). cbn. repeat split; reflexivity. Qed.
+
+(* the cancel raced with the registration: the canceller took the registration out of Cancel.co but found the
+   slot still empty; nobody but the kernel half (about to re-check the cancel bit) will wake the coroutine *)
+Example ex_cancel_kernel :
+  exists s, ReachF s /\ slot s = true /\ cbit s = true /\ kp s = KCchk /\ cco s = CNone /\ forall i, cn s i = CIdle.
+Proof.
+  run_witness ([APark None] ++ u_to_yield ++
+               [AK; AK; AK; AK; ACnOr 0%nat; ACnTakeCo 0%nat; ACnTake 0%nat; AK; AK; AK]).
+  cbn. repeat split; try reflexivity. intros i; destruct i; reflexivity.
+Qed.
 
 (* unpark before park *)
 Example ex_token_first : exists s, ReachF s /\ tok0 s = true /\ in_park (up s) = true.
